@@ -19,8 +19,9 @@ def _run_shard(cid, tier, seed, shard, nshards, outdir, timeout):
     out = os.path.join(outdir, 'shard%d.json' % shard)
     env = dict(os.environ)
     env['PYTHONPATH'] = common.VERIF + os.pathsep + env.get('PYTHONPATH', '')
-    env['PYTHONHASHSEED'] = '0' if tier == 'quick' else \
-        HASHSEEDS[shard % len(HASHSEEDS)]
+    # string-hash order (set / dict-of-str iteration) differs per shard, the
+    # same way in every run; the replay file records it
+    env['PYTHONHASHSEED'] = HASHSEEDS[shard % len(HASHSEEDS)]
     env['LC_ALL'] = 'C'
     env['PYTHONDONTWRITEBYTECODE'] = '1'
     env['OMP_NUM_THREADS'] = '1'
